@@ -192,6 +192,35 @@ def run(chk):
     chk.ob("R-IDX", cd + "{turning test}", "a turning point is a strictly negative product of successive differences",
            len(cm) == 1 and cm[0].op == "Lt" and cm[0].right.has_const() and cm[0].right.const == 0 and alg_degree(cm[0].left.a(R)) == Exp(2) and
            "diff" in cm[0].left.tags, derived="%s" % [(e.op, alg_str(e.left.a(R))) for e in cm], loc=cm[0].loc if cm else r.fi.loc(), inconclusive=not cm)
+    unmodelled_in(r, chk, "R-IDX", cd)
+    # the product is formed from ADJACENT differences: where it is written as a product of two slices of one array, the slices are [1:] and [:-1]
+    # (a located product of two slices of the same name with other bounds compares differences that are not neighbours)
+    for n_ in ast.walk(r.fi.node):
+        if isinstance(n_, ast.BinOp) and isinstance(n_.op, ast.Mult) and all(
+                isinstance(x, ast.Subscript) and isinstance(x.value, ast.Name) and isinstance(x.slice, ast.Slice) and x.slice.step is None
+                for x in (n_.left, n_.right)) and n_.left.value.id == n_.right.value.id:
+            forms = sorted(" ".join(ast.unparse(x.slice).split()) for x in (n_.left, n_.right))
+
+            def _lit(e_, upper):
+                """literal slice bound: lower k >= 0 (None = 0), upper -k <= 0 counted from the end (None = 0); anything else is not read"""
+                if e_ is None:
+                    return 0
+                try:
+                    v_ = ast.literal_eval(e_)
+                except Exception:
+                    return None
+                if type(v_) is not int:
+                    return None
+                if upper:
+                    return v_ if v_ < 0 else (0 if (v_ == 0 and False) else None)
+                return v_ if v_ >= 0 else None
+            bnds = [(_lit(x.slice.lower, False), _lit(x.slice.upper, True)) for x in (n_.left, n_.right)]
+            read_ = all(a_ is not None and b_ is not None for a_, b_ in bnds) or any(
+                isinstance(x.slice.upper, ast.UnaryOp) and isinstance(x.slice.upper.operand, ast.Constant) and x.slice.upper.operand.value == 0
+                for x in (n_.left, n_.right))           # x[:-0] is the empty slice: a located wrong bound
+            chk.ob("R-IDX", cd + "{adjacent pair}", "the product pairs each difference with its neighbour: slices [1:] and [:-1] of the same array",
+                   sorted(bnds, key=repr) == sorted([(1, 0), (0, -1)], key=repr), derived="slices %s of `%s`" % (forms, n_.left.value.id),
+                   loc=r.fi.loc(n_), stmt=norm_stmt(n_), inconclusive=not read_)
     # the detector enforces a float copy ("enforce array type"): with fixed-width integer samples the successive differences and their
     # products must not be formed in the integer dtype (they wrap around and turning points are lost or invented)
     for pt in ("all", "max"):
